@@ -138,11 +138,60 @@ def bump_sweep() -> list[dict]:
                     h = [list(e) for e in pre] + [["start", 1, z, 0, force, 0, -1], ["bump", z, 0, 0, 0, 1, n],
                                                   ["fu", z, 0, 0, 0, 0, -1], ["fu", other, 0, 0, 0, 0, -1]]
                     out.append({"zones": [1, 2], "h": h})
+            # the same with the edit crossing a change in the number of fragments (versions 0, 1: two fragments,
+            # 2 and up: three) and between two three-fragment versions
+            for init in (1, 2):
+                for force in (0, 1):
+                    h = [["bump", z, 0, 0, 0, 0, -1]] * init + [["start", 1, z, 0, force, 0, -1], ["bump", z, 0, 0, 0, 1, n],
+                                                                ["fu", z, 0, 0, 0, 0, -1], ["fu", other, 0, 0, 0, 0, -1]]
+                    out.append({"zones": [1, 2], "h": [list(e) for e in h]})
             # a second, unforced get of the same zone after the first (cached result must not outlive the counter)
             h = [["heard6", 0, 0, 0, 0, 0, -1], ["start", 1, z, 0, 0, 0, -1], ["bump", z, 0, 0, 0, 1, n],
                  ["start", 2, z, 0, 0, 1, -1], ["fu", z, 0, 0, 0, 0, -1]]
             out.append({"zones": [1, 2], "h": h})
     return out
+
+
+def stitch_sweep(rnd: random.Random, n_pairs: int) -> tuple[int, dict, list[dict]]:
+    """The model's assumption ZlibDetects (SchedXfer.tla: a fragment set mixed from two versions never decodes),
+    bound to the real decoder: pairs of plain schedules with the same number of fragments, every way of stitching the
+    head of one to the tail of the other -> fragz_to_full_sched() must raise, or return one of the two schedules.
+    Returns (sets tried, outcome histogram, offending sets)."""
+    from ramses_rf.system.schedule import fragz_to_full_sched, full_sched_to_fragz
+
+    def plain(nsp: int, base: float, step: float, t0: int, dt_: int, days: int = 7) -> dict:
+        return {"zone_idx": "01", "schedule": [
+            {"day_of_week": d, "switchpoints": [
+                {"time_of_day": f"{(t0 + dt_ * i) % 24:02d}:{(10 * ((d * step_min + i) % 6)):02d}",
+                 "heat_setpoint": min(35.0, base + step * i + (0.5 * d if vary_days else 0.0))} for i in range(nsp)]}
+            for d in range(days)]}
+
+    tried, hist, bad = 0, {"raises": 0, "one-of-the-two": 0}, []
+    for _ in range(n_pairs):
+        nsp = rnd.randint(3, 5)
+        vary_days, step_min = rnd.random() < 0.3, rnd.choice((0, 0, 1))
+        a = plain(nsp, rnd.randint(20, 49) / 2, rnd.choice((0.5, 1.0, 1.5)), rnd.randint(5, 8), rnd.choice((2, 3, 4)))
+        b = plain(nsp, rnd.randint(20, 49) / 2, rnd.choice((0.5, 1.0, 1.5)), rnd.randint(5, 8), rnd.choice((2, 3, 4)))
+        fa, fb = full_sched_to_fragz(a), full_sched_to_fragz(b)
+        if fa == fb or len(fa) != len(fb) or len(fa) < 2:
+            continue
+        for old, new in ((fa, fb), (fb, fa)):
+            for k in range(1, len(old)):
+                tried += 1
+                mix = list(old[:k]) + list(new[k:])
+                try:
+                    got = fragz_to_full_sched(mix)
+                except Exception:  # noqa: BLE001 - any error makes the fetch start over / end with an error
+                    hist["raises"] += 1
+                    continue
+                if got in (fragz_to_full_sched(old), fragz_to_full_sched(new)):
+                    hist["one-of-the-two"] += 1
+                    continue
+                if len(bad) < 3:
+                    bad.append({"old": a if old is fa else b, "new": b if old is fa else a, "head_fragments": k,
+                                "decoded": str(got)[:400]})
+                hist["neither"] = hist.get("neither", 0) + 1
+    return tried, hist, bad
 
 
 def concurrent_sweep() -> list[dict]:
@@ -213,6 +262,19 @@ def _exec(sc: dict) -> tuple[dict, int, int, int]:
 def do_replay(path: str) -> None:
     obj = json.load(open(path))
     sc = obj.get("replay", obj)
+    if sc.get("stitch"):   # a stitched fragment set against the decoder
+        from ramses_rf.system.schedule import fragz_to_full_sched, full_sched_to_fragz
+        b = sc["stitch"]
+        old, new = full_sched_to_fragz(b["old"]), full_sched_to_fragz(b["new"])
+        try:
+            got = fragz_to_full_sched(list(old[: b["head_fragments"]]) + list(new[b["head_fragments"]:]))
+        except Exception as err:  # noqa: BLE001
+            print(f"the stitched set is refused ({type(err).__name__}): not reproduced")
+            raise SystemExit(0)
+        bad = got not in (fragz_to_full_sched(old), fragz_to_full_sched(new))
+        print(f"decoded: {json.dumps(got)[:400]}")
+        print("REPRODUCED" if bad else "not reproduced")
+        raise SystemExit(1 if bad else 0)
     print(f"replaying scenario: {json.dumps(sc)}")
     r = X.run_scenario(sc, verbose=True)
     res = validate([r.item()], 1)
@@ -334,6 +396,18 @@ def main(tier: str, replay: str | None) -> None:
             skipped += nskip
     t_exec = time.time() - t0 - t_mc - t_scen
 
+    # ---- 3b. the model's assumption about the decoder, on the real decoder -----------------------------
+    n_st, st_hist, st_bad = stitch_sweep(rnd, 1500 if quick else 20000)
+    if st_hist["raises"] == 0:
+        raise tlc.MachineryFailure("stitch sweep: no stitched set was refused - the sweep does not exercise the decoder")
+    for b in st_bad[:1]:
+        chk.violation("C18a:stitched-set-decodes",
+                      "fragz_to_full_sched() turns a fragment set stitched from two versions of a zone's schedule (the "
+                      f"first {b['head_fragments']} fragment(s) of the old one, the rest of the new one) into a schedule that "
+                      f"is neither ({st_hist.get('neither', 0)} of {n_st} stitched sets): a fetch during which the schedule is "
+                      f"edited returns it; decoded: {json.dumps(b['decoded'])[:300]}",
+                      {"zones": [1], "h": [], "stitch": b})
+
     # ---- 4. TLC judges the recorded executions --------------------------------------------------
     # judge self-test: two corrupted copies of a recorded trace must be rejected for the right clause
     n_real = len(items)
@@ -414,6 +488,7 @@ def main(tier: str, replay: str | None) -> None:
                           "enumerated_total": n_enum_total, "enumerated_run": len(enum),
                           "transparent_variants": sum(1 for o, _ in runs if o == "transparent")},
             "events_recorded": n_events,
+            "assumption_ZlibDetects_on_the_real_decoder": {"stitched_sets": n_st, **st_hist},
             "executions_with_failed_clause": n_clause_fail,
             "conforms_to": conforms,
             "executions_deviating_from_as_is_model": drift_f,
